@@ -275,6 +275,8 @@ func init() {
 	planRegistry["C07"] = planC07
 	planRegistry["C10"] = planC10
 	planRegistry["C13"] = planC13
+	planRegistry["C09"] = planC09
+	planRegistry["C16"] = planC16
 	planRegistry["C01"] = planC01
 	planRegistry["C15"] = planC15
 	planRegistry["C05"] = planC05
@@ -640,5 +642,48 @@ func planC01(tier string) *Plan {
 	p.Bounds["composition"] = "per-node obligations at N=4 (one inductive step from any Inv state); quorum intersection as a set query for every N in 1..10 and as arithmetic (2M-N >= F+1) for every N in 1..65535"
 	p.Outside = append(p.Outside, "the step from the per-node obligations to the multi-node statement is a paper argument (DESIGN §6 C01): two accepted blocks b != b' at one height give, by L3 and Q, an honest validator whose valid commits are counted for both; by L4 it signed both; L1/L2 forbid that", "states that are reachable only through known finding KF-1")
 	p.Explanation = "Agreement is decided compositionally. Solver-decided on the real code (one symbolic step of every relevant API from every Inv state, N=4): L1 commit lock and L2 single commit with identical retransmissions (the C03 obligations), L3 decision certificate: every successful ProcessBlock holds >= M current-view commits verifying against exactly that block (C02.O1), L4 the own commit signs the header built from the stored proposal and L5 only payloads of the node's height are stored (Inv conjuncts 3, 5, 11, 12, asserted on every post-state). Solver-decided on the real M()/F(): any two M-sets minus any F-set intersect (every N <= 10 as a bit-set query, every N <= 65535 arithmetically), and M-F locked honest validators leave fewer than M possible change-view senders."
+	return p
+}
+
+func planC09(tier string) *Plan {
+	want := []string{"C09"}
+	am := []int{0, 1}
+	roles := []int{0, 1, 2, 3, -1}
+	cells := []cellSpec{
+		// L1 timeout ladder
+		{roles: []int{0, 1, 2}, amevs: am, maxs: []int{0, 1}, reqs: []int{0, 1}, apis: []int{apiTimeout}, extra: map[string]int{"decided": 2}},
+		// L2 responder selection: every own index, the sender symbolic
+		{roles: roles, amevs: am, reqs: []int{0, 1}, apis: []int{apiRecoveryRequest, apiChangeView}},
+		{roles: []int{1, 2}, amevs: am, reqs: []int{1}, apis: []int{apiRecoveryRequest}, extra: map[string]int{"watch": 1}},
+	}
+	p := stepPlan("C09", tier, want, cells, 900)
+	for _, e := range []string{"distinctviews", "range", "quorum"} {
+		j := job("H_C06_"+e, "cvc5-int")
+		j.Timeout = 60000
+		p.Jobs = append(p.Jobs, j)
+	}
+	p.MustCover = []string{"C09.L1.timeout", "C09.L2.request", "C09.L2.answered", "event.broadcast.changeview", "event.broadcast.recoveryrequest", "event.broadcast.recoverymessage", "C06.distinctviews"}
+	p.MustAssert = []string{"C09.L1.acts", "C09.L1.rearmed", "C09.L1.resend", "C09.L1.changeview", "C09.L1.recoveryrequest", "C09.L2.responders", "C06.O4.distinctviews", "INV"}
+	p.Outside = append(p.Outside, "THE EMERGENT CLAIM IS NOT DECIDED: that the live validators of a network actually decide after partitions heal / nodes restart is a whole-network liveness property over virtual time; only the per-node ingredients below are solver-decided",
+		"recovery transfer (a behind node adopting a peer's state from one recovery message) is examined only through the Inv/step obligations of OnReceive(RecoveryMessage) in C02-C04, not as an end-to-end lemma")
+	p.Explanation = "Local lemmas of recovery liveness on the real code, each one symbolic step from every Inv state (N=4): (L1) OnTimeout for the current epoch on an undecided validator always acts (proposal, ChangeView, RecoveryRequest, RecoveryMessage, or the dynamic-block-time deferral) and re-arms the timer; a committed node resends its state and never asks for a view change; a timeout-driven ChangeView is sent only while at most F validators are committed or lost, a RecoveryRequest only otherwise. (L2) A recovery request (or a ChangeView for a view already reached) is answered exactly by the committed nodes and by the F+1 validators following the sender, never by a watch-only node, with one message. (L4, with C06) the primaries of any n consecutive views are pairwise distinct for every n, so a view with a live primary is reached after at most #silent view changes."
+	return p
+}
+
+func planC16(tier string) *Plan {
+	want := []string{"C16"}
+	cells := []cellSpec{
+		{roles: []int{0, 1}, amevs: []int{0, 1}, maxs: []int{1}, reqs: []int{0}, apis: []int{apiTimeout, apiNewTransaction}, extra: map[string]int{"decided": 2}},
+		{roles: []int{0, 1}, amevs: []int{0}, maxs: []int{1}, reqs: []int{0}, apis: []int{apiTimeout, apiNewTransaction}, extra: map[string]int{"decided": 2, "npool": 1}},
+		{roles: []int{1}, amevs: []int{0, 1}, maxs: []int{1}, reqs: []int{1}, apis: []int{apiTimeout, apiNewTransaction}, extra: map[string]int{"decided": 2}},
+		// O4: extension not configured: SubscribeForTxs is nil, a call would panic
+		{roles: []int{0, 1, -1}, amevs: []int{0, 1}, maxs: []int{0}, reqs: []int{0, 1}, apis: []int{apiTimeout, apiNewTransaction, apiChangeView, apiPrepareRequest}},
+	}
+	p := stepPlan("C16", tier, want, cells, 900)
+	p.PanicsCount = true
+	p.MustCover = []string{"C16.O1.defer", "C16.O1.forced", "C16.O2.defer", "C16.O2.notify", "step.end"}
+	p.MustAssert = []string{"C16.O1.defer", "C16.O1.propose", "C16.O1.forced", "C16.O2.defer", "C16.O2.notify", "C16.O2.ignored", "C16.O4.nosubscribe", "INV"}
+	p.Outside = append(p.Outside, "THE NETWORK-LEVEL CLAIM IS NOT DECIDED: spacing of consecutive proposals on a fault-free synchronous network of 1..7 nodes under all delivery orders needs whole-network runs in virtual time; only the local timer algebra below is solver-decided")
+	p.Explanation = "Local timer algebra of the dynamic-block-time extension on the real OnTimeout/OnNewTransaction, one symbolic step from every Inv state at view 0 (N=4, MaxTimePerBlock >= TimePerBlock symbolic): an idle primary whose timer expires with an empty pool does not propose, subscribes once and re-arms for max-min; its next expiry or a new-transaction notification produces the proposal in that very call; a backup whose timer expires with an empty pool does not ask for a view change, subscribes and re-arms for 2*max-2*min (non-negative); a notification re-arms it for 2*min without a ChangeView; a notification without an active subscription changes nothing. With the extension not configured no path subscribes (SubscribeForTxs is nil: a call would be a panic, which is a violation here)."
 	return p
 }
